@@ -12,7 +12,8 @@ CONSTANTS MaxTok, Tokens, EmitOn
 VARIABLES s, n
 vars == <<s, n>>
 
-T9 == {StartM, EndM, Cross, <<NL>>, <<97>>, <<226>>, <<128>>, <<185>>, <<186>>, <<194, 186>>}
+\* (184, 187: with 226 128 before them the code points next to the markers, U+2038 and U+203B)
+T9 == {StartM, EndM, Cross, <<NL>>, <<97>>, <<226>>, <<128>>, <<185>>, <<186>>, <<194, 186>>, <<184>>, <<187>>}
 T6 == {StartM, EndM, Cross, <<NL>>, <<97>>, <<128>>}
 
 Init == s = <<>> /\ n = 0
